@@ -5,7 +5,7 @@ use crate::actors::{caller, caller_linger, Linger};
 use crate::prng::{Fnv, Prng};
 use crate::report::{Report, Tier};
 use crate::sim::{run_sim, What};
-use crate::world::{Ev, How, Lat, Out, Outcome, PErr, Rec, Req, Step, World};
+use crate::world::{Ev, How, Lat, Out, Outcome, PErr, Rec, Req, Resp, Step, World};
 use serde_json::json;
 use std::collections::{HashMap, HashSet};
 use std::sync::Arc;
@@ -404,11 +404,43 @@ pub fn judge(which: &str, cfg: &Cfg, log: &[Rec]) -> Report {
 // E-STRESS for C01: real threads, real clock, only the time-independent bound is judged
 // ---------------------------------------------------------------------------------------
 
+/// One round = a burst phase on a `reject_when_full`-style bulkhead (admission decisions racing on
+/// different worker threads) followed by a general phase with a random configuration.
 pub fn stress(sseed: u64, calls: u64) -> Report {
+    let mut a = stress_one(sseed, calls / 4, Some(true));
+    if !a.violations.is_empty() || a.inconclusive.is_some() {
+        return a;
+    }
+    let b = stress_one(sseed ^ 0x5eed, calls, None);
+    for (k, v) in &b.counters {
+        a.count(k, *v);
+    }
+    for (k, v) in &b.maxima {
+        a.max(k, *v);
+    }
+    a.buckets.extend(b.buckets.iter().cloned());
+    a.violations.extend(b.violations.iter().cloned());
+    a.inconclusive = b.inconclusive.clone();
+    a.nontrivial = a.nontrivial || b.nontrivial;
+    a.sig = crate::prng::mix(a.sig, b.sig);
+    a.case = json!({"burst_phase": a.case, "general_phase": b.case});
+    a
+}
+
+fn stress_one(sseed: u64, calls: u64, force_burst_reject: Option<bool>) -> Report {
     use tower::Service;
     let mut rng = Prng::new(sseed);
-    let n = *rng.pick(&[1usize, 2, 3, 5, 8]);
-    let wait = *rng.pick(&[None, Some(0u64), Some(1), Some(3)]);
+    // burst mode: all tasks are released together by a barrier before every call, so that their
+    // admission decisions really race on different worker threads
+    let burst = force_burst_reject.unwrap_or_else(|| rng.chance(0.3));
+    let n = if burst { *rng.pick(&[1usize, 1, 2, 3]) } else { *rng.pick(&[1usize, 2, 3, 5, 8]) };
+    let wait = if force_burst_reject.is_some() {
+        Some(0u64)
+    } else if burst {
+        *rng.pick(&[Some(0u64), None, Some(1)])
+    } else {
+        *rng.pick(&[None, Some(0u64), Some(1), Some(3)])
+    };
     let workers = *rng.pick(&[4usize, 8, 16]);
     let mut rep = Report::default();
     let rt = tokio::runtime::Builder::new_multi_thread().worker_threads(workers).enable_time().build().unwrap();
@@ -418,19 +450,24 @@ pub fn stress(sseed: u64, calls: u64) -> Report {
         b = b.max_wait_duration(Duration::from_millis(ms));
     }
     let svc = b.build().layer(w.probe(1));
-    let tasks = 64u64;
-    let per = calls / tasks;
+    let tasks = if burst { 2 * workers as u64 } else { 64u64 };
+    let per = if burst { (calls / tasks).min(1500) } else { calls / tasks };
+    let barrier = Arc::new(tokio::sync::Barrier::new(tasks as usize));
     let started = std::time::Instant::now();
     let done = rt.block_on(async { tokio::time::timeout(Duration::from_secs(120), async {
         let mut hs = vec![];
         for t in 0..tasks {
             let svc = svc.clone();
             let mut r = Prng::new(sseed ^ t);
+            let barrier = barrier.clone();
             hs.push(tokio::spawn(async move {
                 let mut admitted = 0u64;
                 for i in 0..per {
                     let mut s = svc.clone();
-                    let lat = if r.chance(0.5) { Lat::Us(0) } else { Lat::Us(r.range(1, 300)) };
+                    if burst {
+                        barrier.wait().await;
+                    }
+                    let lat = if burst { Lat::Us(r.range(20, 120)) } else if r.chance(0.5) { Lat::Us(0) } else { Lat::Us(r.range(1, 300)) };
                     let out = if r.chance(0.8) { Out::Ok } else { Out::Err(1) };
                     let req = Req::new(t * 1_000_000 + i, 0, vec![Step { lat, out }]);
                     let ready = std::future::poll_fn(|cx| s.poll_ready(cx)).await;
@@ -438,7 +475,7 @@ pub fn stress(sseed: u64, calls: u64) -> Report {
                         continue;
                     }
                     let fut = s.call(req);
-                    if r.chance(0.15) {
+                    if !burst && r.chance(0.15) {
                         // cancel after a short while
                         let h = tokio::spawn(fut);
                         tokio::time::sleep(Duration::from_micros(r.range(0, 200))).await;
@@ -483,7 +520,234 @@ pub fn stress(sseed: u64, calls: u64) -> Report {
     rep.count("stress_calls_admitted", done);
     rep.max("max_in_flight", maxf as u64);
     rep.case = json!({"engine":"stress","n":n,"max_wait_ms":wait,"workers":workers,"calls":per*tasks,"admitted":done,"max_in_flight":maxf,"wall_ms":started.elapsed().as_millis() as u64});
-    rep.bucket(format!("stress n={n} wait={wait:?} workers={workers}"));
+    rep.bucket(format!("stress{} n={n} wait={wait:?} workers={workers}", if burst { " burst" } else { "" }));
     drop(rt);
+    rep
+}
+
+// ---------------------------------------------------------------------------------------
+// thread stress: K OS threads, each with its own clone, released together by a spin barrier, take
+// their admission decisions at the same instant; admitted calls stay inside the inner service
+// until every thread has its verdict, so the high-water mark is exact
+// ---------------------------------------------------------------------------------------
+
+struct HoldState {
+    inflight: std::sync::atomic::AtomicI64,
+    high: std::sync::atomic::AtomicI64,
+    released_round: std::sync::atomic::AtomicU64,
+    entered: Vec<std::sync::atomic::AtomicBool>,
+    admitted_total: std::sync::atomic::AtomicU64,
+}
+
+#[derive(Clone)]
+struct Hold(Arc<HoldState>);
+
+struct HoldFut {
+    st: Arc<HoldState>,
+    who: usize,
+    round: u64,
+    inside: bool,
+}
+impl std::future::Future for HoldFut {
+    type Output = Result<Resp, PErr>;
+    fn poll(mut self: std::pin::Pin<&mut Self>, _cx: &mut std::task::Context<'_>) -> std::task::Poll<Self::Output> {
+        use std::sync::atomic::Ordering::SeqCst;
+        if !self.inside {
+            self.inside = true;
+            let now = self.st.inflight.fetch_add(1, SeqCst) + 1;
+            self.st.high.fetch_max(now, SeqCst);
+            self.st.admitted_total.fetch_add(1, SeqCst);
+            self.st.entered[self.who].store(true, SeqCst);
+        }
+        if self.st.released_round.load(SeqCst) >= self.round {
+            self.inside = false;
+            self.st.inflight.fetch_sub(1, SeqCst);
+            self.round = u64::MAX;
+            return std::task::Poll::Ready(Ok(Resp { serial: 0, req_id: self.who as u64, payload: 0, src: 0 }));
+        }
+        std::task::Poll::Pending
+    }
+}
+impl Drop for HoldFut {
+    fn drop(&mut self) {
+        if self.inside {
+            self.st.inflight.fetch_sub(1, std::sync::atomic::Ordering::SeqCst);
+        }
+    }
+}
+impl tower::Service<Req> for Hold {
+    type Response = Resp;
+    type Error = PErr;
+    type Future = HoldFut;
+    fn poll_ready(&mut self, _: &mut std::task::Context<'_>) -> std::task::Poll<Result<(), PErr>> {
+        std::task::Poll::Ready(Ok(()))
+    }
+    fn call(&mut self, r: Req) -> HoldFut {
+        HoldFut { st: self.0.clone(), who: r.id as usize, round: r.payload, inside: false }
+    }
+}
+
+pub fn stress_threads(sseed: u64, rounds: u64) -> Report {
+    use std::future::Future;
+    use std::sync::atomic::{AtomicBool, AtomicI64, AtomicU64, AtomicUsize, Ordering::SeqCst};
+    use std::task::{Context, Poll, Wake, Waker};
+    use tower::Service;
+    struct Noop;
+    impl Wake for Noop {
+        fn wake(self: Arc<Self>) {}
+    }
+    let mut rng = Prng::new(sseed);
+    let threads = *rng.pick(&[4usize, 8, 8, 12]);
+    let n = *rng.pick(&[1usize, 1, 2, 3]);
+    let reject = rng.chance(0.7);
+    let mut rep = Report::default();
+    let rt = match tokio::runtime::Builder::new_multi_thread().worker_threads(2).enable_time().build() {
+        Ok(rt) => rt,
+        Err(e) => {
+            rep.inconclusive = Some(format!("cannot build a runtime: {e}"));
+            return rep;
+        }
+    };
+    let st = Arc::new(HoldState {
+        inflight: AtomicI64::new(0),
+        high: AtomicI64::new(0),
+        released_round: AtomicU64::new(0),
+        entered: (0..threads).map(|_| AtomicBool::new(false)).collect(),
+        admitted_total: AtomicU64::new(0),
+    });
+    let mut b = BulkheadLayer::builder().max_concurrent_calls(n);
+    if reject {
+        b = b.reject_when_full();
+    }
+    let svc = b.build().layer(Hold(st.clone()));
+    // sense-reversing spin barrier
+    let arrived = Arc::new(AtomicUsize::new(0));
+    let generation = Arc::new(AtomicU64::new(0));
+    let decided = Arc::new(AtomicUsize::new(0));
+    let bad_round = Arc::new(AtomicU64::new(0));
+    let started = std::time::Instant::now();
+    let mut hs = vec![];
+    for t in 0..threads {
+        let (svc, st, arrived, generation, decided, bad_round) = (svc.clone(), st.clone(), arrived.clone(), generation.clone(), decided.clone(), bad_round.clone());
+        let handle = rt.handle().clone();
+        hs.push(std::thread::spawn(move || {
+            let _g = handle.enter();
+            let waker = Waker::from(Arc::new(Noop));
+            let mut cx = Context::from_waker(&waker);
+            let mut rejected = 0u64;
+            let spin = |gen: &AtomicU64, want: u64| {
+                let mut k = 0u64;
+                while gen.load(SeqCst) < want {
+                    k += 1;
+                    if k % 4096 == 0 {
+                        std::thread::yield_now();
+                    }
+                    std::hint::spin_loop();
+                }
+            };
+            for round in 1..=rounds {
+                let mut s = svc.clone();
+                let _ = s.poll_ready(&mut cx);
+                st.entered[t].store(false, SeqCst);
+                // phase 1: everybody ready
+                if arrived.fetch_add(1, SeqCst) + 1 == threads {
+                    arrived.store(0, SeqCst);
+                    decided.store(0, SeqCst);
+                    generation.store(3 * round - 2, SeqCst);
+                } else {
+                    spin(&generation, 3 * round - 2);
+                }
+                let mut req = Req::new(t as u64, 0, vec![]);
+                req.payload = round;
+                let mut fut = Box::pin(s.call(req));
+                // poll until this call is rejected/finished or is inside the inner service
+                let mut res = None;
+                let mut waited = 0u64;
+                loop {
+                    match fut.as_mut().poll(&mut cx) {
+                        Poll::Ready(x) => {
+                            res = Some(x);
+                            break;
+                        }
+                        Poll::Pending => {
+                            if st.entered[t].load(SeqCst) {
+                                break;
+                            }
+                            // queued (no wait limit) behind the admitted ones: that is a verdict too
+                            waited += 1;
+                            if !reject && waited > 200 {
+                                break;
+                            }
+                            std::hint::spin_loop();
+                        }
+                    }
+                }
+                // phase 2: everybody has a verdict; the last one checks the high-water mark and releases
+                if decided.fetch_add(1, SeqCst) + 1 == threads {
+                    if st.high.load(SeqCst) > n as i64 && bad_round.load(SeqCst) == 0 {
+                        bad_round.store(round, SeqCst);
+                    }
+                    st.released_round.store(round, SeqCst);
+                    generation.store(3 * round - 1, SeqCst);
+                } else {
+                    spin(&generation, 3 * round - 1);
+                }
+                if res.is_none() {
+                    let mut k = 0u64;
+                    loop {
+                        if let Poll::Ready(x) = fut.as_mut().poll(&mut cx) {
+                            res = Some(x);
+                            break;
+                        }
+                        k += 1;
+                        if k % 1024 == 0 {
+                            std::thread::yield_now();
+                        }
+                        if k > 200_000_000 {
+                            break;
+                        }
+                    }
+                }
+                if !matches!(res, Some(Ok(_))) {
+                    rejected += 1;
+                }
+                drop(fut);
+                // phase 3: everybody finished
+                if arrived.fetch_add(1, SeqCst) + 1 == threads {
+                    arrived.store(0, SeqCst);
+                    generation.store(3 * round, SeqCst);
+                } else {
+                    spin(&generation, 3 * round);
+                }
+                if bad_round.load(SeqCst) != 0 {
+                    break;
+                }
+            }
+            rejected
+        }));
+    }
+    let mut rejected = 0;
+    for h in hs {
+        rejected += h.join().unwrap_or(0);
+    }
+    rt.shutdown_background();
+    let high = st.high.load(SeqCst);
+    if high > n as i64 {
+        rep.violate(
+            "C01:over-admission",
+            format!("threads: {high} calls were inside the inner service at once through a bulkhead with max_concurrent_calls={n} ({}; {threads} threads released together, round {})", if reject { "reject_when_full" } else { "unbounded wait" }, bad_round.load(SeqCst)),
+        );
+    }
+    if st.inflight.load(SeqCst) != 0 {
+        rep.violate("C01:harness-accounting", format!("threads: in-flight counter ended at {}", st.inflight.load(SeqCst)));
+    }
+    rep.nontrivial = high >= n as i64 && rejected > 0;
+    rep.sig = crate::prng::mix(sseed, high as u64);
+    rep.count("thread_rounds", rounds);
+    rep.count("thread_calls_admitted", st.admitted_total.load(SeqCst));
+    rep.count("thread_calls_rejected_or_queued", rejected);
+    rep.max("max_in_flight_threads", high as u64);
+    rep.case = json!({"engine": "stress-threads", "n": n, "reject_when_full": reject, "threads": threads, "rounds": rounds, "admitted": st.admitted_total.load(SeqCst), "max_in_flight": high, "wall_ms": started.elapsed().as_millis() as u64});
+    rep.bucket(format!("threads n={n} reject={reject} threads={threads}"));
     rep
 }
